@@ -204,11 +204,11 @@ Definition dispatch (c : rcfg) (st : rstate) (i d : option l3i) (raw tok : bytes
         | Some None => HOk st' []                                      (* "Invalid PIT token" - DROP *)
         | Some (Some t) => HOk st' [mk false t]
         end
-      else if r_local c then
+      else
+        (* no PIT token of ours: the threads of every prefix of the name, whatever the scope of the face *)
         match prefix_deliveries (r_nthreads c) 0 (p_threads info) (mk false) with
         | Some ds => HOk st' ds | None => HPanic
         end
-      else if h_thread info <? r_nthreads c then HOk st' [mk false (h_thread info)] else HPanic
     | None => HOk st []                                                (* "unknown type" *)
     end
   end.
